@@ -35,11 +35,13 @@ pub struct Calls {
     ok_calls: u64,
     notable: Vec<Value>,
     pub stopped: bool,
+    /// largest number of block loads (absolute seeks on the source) during one public call
+    max_loads: u64,
 }
 
 impl Calls {
     fn new() -> Calls {
-        Calls { ok_calls: 0, notable: Vec::new(), stopped: false }
+        Calls { ok_calls: 0, notable: Vec::new(), stopped: false, max_loads: 0 }
     }
     /// Runs one public call; returns its value when it returned ok.
     fn call<T>(&mut self, op: &str, f: impl FnOnce() -> Result<T, &'static str>) -> Option<T> {
@@ -47,8 +49,13 @@ impl Calls {
             return None;
         }
         let before = io::fired();
+        let loads_before = io::block_loads();
         let r = catch_unwind(AssertUnwindSafe(f));
         let fired = io::fired() && !before;
+        // C16 speaks of single cursor operations (an iterator's next() may be two of them)
+        if matches!(op, "first" | "last" | "next" | "prev" | "ge" | "le" | "eq") {
+            self.max_loads = self.max_loads.max(io::block_loads() - loads_before);
+        }
         let (res, val) = match r {
             Ok(Ok(v)) => ("ok", Some(v)),
             Ok(Err(c)) => (c, None),
@@ -213,7 +220,7 @@ fn kinds_for(comp: &str) -> Vec<&'static str> {
 
 /// Runs the program cleanly, then once per fault point. `cap` bounds the fault points per
 /// component kind (evenly spread, first and last always included).
-fn enumerate(out: &mut TraceOut, name: &str, prog: &Program, cap: usize, all_kinds: bool, r: &mut R) {
+fn enumerate(out: &mut TraceOut, name: &str, prog: &Program, cap: usize, all_kinds: bool, r: &mut R, levels: u8) {
     io::reset(Sched::Whole, Sched::Whole, None);
     let mut clean = Calls::new();
     prog(&mut clean);
@@ -222,7 +229,7 @@ fn enumerate(out: &mut TraceOut, name: &str, prog: &Program, cap: usize, all_kin
     let flushes = counts.get("sink.flush").copied().unwrap_or(0);
     let writes = counts.get("sink.write").copied().unwrap_or(0);
     out.ev(json!({"ev": "FClean", "prog": name, "ok_calls": clean.ok_calls, "notable": clean.notable, "counts": counts,
-                  "sink_writes": writes, "sink_flushes": flushes}));
+                  "sink_writes": writes, "sink_flushes": flushes, "max_loads": clean.max_loads, "levels": levels}));
     for (comp, n) in counts.iter() {
         let n = *n;
         let ks: Vec<u64> = if n as usize <= cap {
@@ -240,7 +247,7 @@ fn enumerate(out: &mut TraceOut, name: &str, prog: &Program, cap: usize, all_kin
                 let mut calls = Calls::new();
                 prog(&mut calls);
                 out.ev(json!({"ev": "FRun", "prog": name, "comp": comp, "k": k, "kind": kind, "fired": io::fired(),
-                              "ok_calls": calls.ok_calls, "notable": calls.notable}));
+                              "ok_calls": calls.ok_calls, "notable": calls.notable, "max_loads": calls.max_loads, "levels": levels}));
             }
         }
     }
@@ -258,7 +265,7 @@ pub fn scn_faults(out: &mut TraceOut, r: &mut R, idx: u64, heavy: bool) {
                 cfg.levels = 3;
             }
             let prog = writer_program(cfg.clone(), entries);
-            enumerate(out, "writer", &prog, cap, all_kinds, r);
+            enumerate(out, "writer", &prog, cap, all_kinds, r, 0);
         }
         1 => {
             let (mut cfg, mut entries) = random_file_capped(r, 9 + idx / 4, false, 2000);
@@ -273,7 +280,7 @@ pub fn scn_faults(out: &mut TraceOut, r: &mut R, idx: u64, heavy: bool) {
             probes.push(vec![0xFF; 4]);
             probes.truncate(12);
             let prog = reader_program(Rc::new(bytes), probes, idx / 4);
-            enumerate(out, "reader", &prog, cap, all_kinds, r);
+            enumerate(out, "reader", &prog, cap, all_kinds, r, cfg.levels);
         }
         2 => {
             let k = r.gen_range(1..=3usize);
@@ -291,7 +298,7 @@ pub fn scn_faults(out: &mut TraceOut, r: &mut R, idx: u64, heavy: bool) {
                 files.push(Rc::new(b));
             }
             let prog = merger_program(files, idx % 8 >= 4);
-            enumerate(out, "merger", &prog, cap, all_kinds, r);
+            enumerate(out, "merger", &prog, cap, all_kinds, r, 0);
         }
         _ => {
             let t = *pick(r, &[256usize, 512, 1000]);
@@ -303,7 +310,7 @@ pub fn scn_faults(out: &mut TraceOut, r: &mut R, idx: u64, heavy: bool) {
                 .collect();
             let chunk = Cfg { codec: *pick(r, &[0u8, 5]), level: 0, block_size: 1024, interval: 2, levels: *pick(r, &[0u8, 1, 2]) };
             let prog = sorter_program(t, init, r.gen_bool(0.5), *pick(r, &[1usize, 2, 3]), chunk, inserts, (idx / 4 % 3) as u8);
-            enumerate(out, "sorter", &prog, cap, all_kinds, r);
+            enumerate(out, "sorter", &prog, cap, all_kinds, r, 0);
         }
     }
 }
